@@ -11,6 +11,7 @@ import (
 	metav1 "k8s.io/apimachinery/pkg/apis/meta/v1"
 	"k8s.io/apimachinery/pkg/runtime"
 	"k8s.io/apimachinery/pkg/runtime/schema"
+	"k8s.io/apimachinery/pkg/types"
 	"k8s.io/utils/ptr"
 
 	apiextv1 "github.com/crossplane/crossplane/apis/apiextensions/v1"
@@ -169,7 +170,7 @@ func buildAll(specs []objSpec, content int) []runtime.Object {
 }
 
 func ownerRef(gvk schema.GroupVersionKind, name, uid string, controller bool) metav1.OwnerReference {
-	r := metav1.OwnerReference{APIVersion: gvk.GroupVersion().String(), Kind: gvk.Kind, Name: name, UID: typesUID(uid)}
+	r := metav1.OwnerReference{APIVersion: gvk.GroupVersion().String(), Kind: gvk.Kind, Name: name, UID: types.UID(uid)}
 	if controller {
 		r.Controller = ptr.To(true)
 		r.BlockOwnerDeletion = ptr.To(true)
@@ -229,3 +230,5 @@ func ownerSummary(o map[string]any) string {
 	}
 	return strings.Join(parts, ",")
 }
+
+type ownerRefT = metav1.OwnerReference
